@@ -231,6 +231,15 @@ pub fn corpus() -> Vec<Entry> {
         ("main", func(&[], vec![sg("a", call("r", vec![int(1)]))])),
         ("r", func(&["n"], vec![ret(call("r", vec![add(rv("n"), int(1))]))])),
     ])));
+    v.push(e("infinite_recursion_noargs", module(vec![
+        ("main", func(&[], vec![sg("a", call("r", vec![]))])),
+        ("r", func(&[], vec![ret(call("r", vec![]))])),
+    ])));
+    v.push(e("reentry_call_stack_full", module(vec![
+        ("main", func(&[], vec![sg("a", call("r", vec![int(0)]))])),
+        // recursion through the re-entrant native: two frames per level, until the second one does not fit
+        ("r", func(&["n"], vec![sg("depth", rv("n")), ret(native("try1", vec![fval("r"), add(rv("n"), int(1))]))])),
+    ])));
     v.push(e("infinite_loop", module(vec![("main", func(&[], vec![
         sv("i", int(0)),
         while_(int(1), sv("i", add(rv("i"), int(1)))),
